@@ -158,6 +158,9 @@ def check(case, rec):
             r = op[1]
             before = obj.df_features.copy(deep=True)
             red = {k: (v - (r or 0) if k.endswith('threshold') else v) for k, v in model.th.items()}
+            got_red = outcome(lambda: obj.reduce_thresholds(r))
+            if got_red[0] != 'ok' or set(got_red[1]) != set(red) or any(got_red[1][k] != red[k] for k in red):
+                raise Violation('reduce_thresholds', '%s: reduce_thresholds(%r) gave %s, every *_threshold lowered by r is %s' % (tag, r, got_red[1], red))
             res_fun = outcome(lambda: recompute_edges(before.copy(deep=True), red))
             res_obj = outcome(lambda: obj.recompute_edges(r))
             if res_fun[0] != res_obj[0]:
